@@ -547,7 +547,20 @@ def r7(ctx):
         ctx.check("R06.7", "clamp-immutable:" + kind, not wr, "clamp-written-after-construction", OBJ + kind, "clamp is never written after construction")
 
 
+def clamp_primitive(ctx):
+    """`each gradient component equals the unclamped value limited to the interval`: the limiting is Tensor::clamp, which must clamp every element of
+    every rank (C15's R15.1 facts about `clamp` re-run under this property)"""
+    from . import c15
+    sub = type(ctx)(ctx.prop, ctx.facts)
+    sub.guard("R15.1", "clamp", c15.elementwise, sub, "clamp", ())
+    bad = [o for o in sub.obligations if o["status"] != "ok"]
+    for o in bad:
+        ctx.bad("R06.4", "clamp-primitive:" + o["instance"], o["key"].split("/", 3)[-1], o["where"], o["detail"])
+    ctx.check("R06.4", "clamp-primitive", not bad and len(sub.obligations) >= 3, "clamp-primitive-broken", "src/tensor.rs", "%d facts about Tensor::clamp" % len(sub.obligations))
+
+
 def run(ctx):
+    ctx.guard("R06.4", "clamp-primitive", clamp_primitive, ctx)
     ctx.guard("R06.7", "clamp-configuration", r7, ctx)
     ctx.floor("R06.7", 15, "7 literals, 1 rebinding fact, 7 immutability facts")
     for kind in KINDS:
